@@ -70,6 +70,9 @@ def requests ():
   # if the switch never handed that id out
   a(("packet-out-last-buffer", lambda x, b=1: W.packet_out(x, W.a_output(2), b"", buffer_id=b, in_port=3), ("buffer",)))
   a(("packet-out-bad-action", lambda x: W.packet_out(x, W.a_raw(0x55), FRAME, in_port=1), ("error", W.OFPET_BAD_ACTION, W.OFPBAC_BAD_TYPE)))
+  # header-only request types with a body attached: the length does not fit the type
+  a(("barrier-with-body", lambda x: W.msg(W.BARRIER_REQUEST, x, b"\0\0\0\0"), ("error", W.OFPET_BAD_REQUEST, W.OFPBRC_BAD_LEN)))
+  a(("get-config-with-body", lambda x: W.msg(W.GET_CONFIG_REQUEST, x, b"\0" * 8), ("error", W.OFPET_BAD_REQUEST, W.OFPBRC_BAD_LEN)))
   a(("vendor", lambda x: W.vendor(x, 0x1234, b"\0\0\0\0"), ("error", W.OFPET_BAD_REQUEST, W.OFPBRC_BAD_VENDOR)))
   a(("hello", lambda x: W.hello(x), ("none",)))
   a(("echo-reply", lambda x: W.echo_reply(x, b"zz"), ("none",)))
@@ -114,6 +117,15 @@ def check_history (names, reqs, rep, stack_factory, batch=False, raws=None):
   xids = [0x51000000 + i for i in range(len(names))]
   if raws is None: raws = [reqs[n][0](x) for n, x in zip(names, xids)]
   else: raws = list(raws)
+  if batch == "split":
+    # every message arrives in two segments (cut after the 4th byte of its header / in the middle of longer ones)
+    try:
+      for raw in raws:
+        k = 4 if len(raw) <= 12 else len(raw) // 2
+        st.feed(raw[:k]); st.feed(raw[k:])
+    except Exception as e:
+      return [("%s:%s:escaped-exception" % (PID, names[-1]), "exception escaped the switch's read loop: %s: %s" % (type(e).__name__, e))], None
+    return [], st.drain()
   if batch:
     try:
       st.feed(b"".join(raws))
@@ -263,6 +275,13 @@ def _worker (histories):
       if bad2: bad = bad2
       elif stream2 != stream:
         bad = [("%s:%s:segmentation-changes-replies" % (PID, names[-1]), "replies differ when the requests arrive in one read")]
+      elif any(reqs[n][1][0] in ("error", "answer") for n in names):
+        # histories with a refused request also with every message split over two reads
+        bad3, stream3 = check_history(names, reqs, rep, _stack, batch="split", raws=check_history.last_raws)
+        rep.evaluations += 1
+        if bad3: bad = bad3
+        elif stream3 != stream:
+          bad = [("%s:%s:segmentation-changes-replies:split" % (PID, names[-1]), "replies differ when every request arrives split over two reads")]
     rep.outcome((names, stream, tuple(k for k, _ in bad)))
     for k, what in bad:
       rep.violation(k, what, dict(history=list(names)))
@@ -289,7 +308,7 @@ def run (cfg):
     hs += list(itertools.product(names, repeat=d))
   hs += long_history(names)
   rep.rule = ("all sequences of <=%d requests over %d controller-to-switch messages (distinct xids), each sent as "
-              "spec-encoded bytes message-by-message and again as one read, plus %d histories of 40 covering every ordered pair; "
+              "spec-encoded bytes message-by-message, again as one read and (histories with a refused request) with every message split over two reads, plus %d histories of 40 covering every ordered pair; "
               "distinct = distinct (history, reply byte stream, verdict)" % (depth, len(names), len(long_history(names))))
   rep.bound = dict(depth=depth, alphabet=len(names))
   rep.assumptions = ["error codes asserted only where OpenFlow 1.0 names one", "HELLO/PACKET_IN/PORT_STATUS/FLOW_REMOVED are asynchronous, not replies"]
@@ -307,4 +326,7 @@ def replay (cfg, data):
   if not bad:
     bad, s2 = check_history(tuple(data["history"]), reqs, rep, _stack, batch=True, raws=check_history.last_raws)
     if not bad and s2 != stream: bad = [("segmentation", "replies differ in one read")]
+    if not bad:
+      bad, s3 = check_history(tuple(data["history"]), reqs, rep, _stack, batch="split", raws=check_history.last_raws)
+      if not bad and s3 != stream: bad = [("segmentation", "replies differ when every request is split over two reads")]
   return bool(bad), "history: %r\n%s" % (data["history"], "\n".join("%s: %s" % b for b in bad))
